@@ -12,7 +12,15 @@ type xpathImpl struct {
 }
 
 func (xp xpathImpl) resolvePath(seg *xpath.Path, s *Selection) (*Selection, error) {
-	m := meta.Find(s.Meta().(meta.HasDefinitions), seg.Ident)
+	if seg == nil {
+		// path ended on a container or list item, it's there
+		return s, nil
+	}
+	defs, hasDefs := s.Meta().(meta.HasDefinitions)
+	if !hasDefs {
+		return nil, fmt.Errorf("'%s' not found in xpath, nothing below %s", seg.Ident, s.Meta().Ident())
+	}
+	m := meta.Find(defs, seg.Ident)
 	if m == nil {
 		return nil, fmt.Errorf("'%s' not found in xpath", seg.Ident)
 	}
@@ -56,15 +64,23 @@ func (xp xpathImpl) resolvePath(seg *xpath.Path, s *Selection) (*Selection, erro
 		}
 		return s, nil
 	}
-	panic("type not supported " + m.Ident())
+	return nil, fmt.Errorf("xpath cannot select %T '%s'", m, m.Ident())
 }
 
 func (xp xpathImpl) resolveExpression(name string, e xpath.Expression, sel *Selection) (bool, error) {
 	switch x := e.(type) {
 	case *xpath.Operator:
 		return xp.resolveOperator(x, name, sel)
+	case nil:
+		// no operator, true if leaf has a value
+		leaf, err := sel.Find(name)
+		if err != nil || leaf == nil {
+			return false, err
+		}
+		v, err := leaf.Get()
+		return v != nil, err
 	}
-	panic("unknown xpath expression")
+	return false, fmt.Errorf("unknown xpath expression %T", e)
 }
 
 func (xp xpathImpl) resolveOperator(oper *xpath.Operator, ident string, s *Selection) (bool, error) {
@@ -72,7 +88,11 @@ func (xp xpathImpl) resolveOperator(oper *xpath.Operator, ident string, s *Selec
 	if m == nil {
 		return false, fmt.Errorf("'%s' not found in xpath", ident)
 	}
-	b, err := NewValue(m.(meta.HasType).Type(), oper.Lhs)
+	typed, hasType := m.(meta.HasType)
+	if !hasType {
+		return false, fmt.Errorf("'%s' is not a leaf, cannot compare in xpath", ident)
+	}
+	b, err := NewValue(typed.Type(), oper.Lhs)
 	if err != nil {
 		return false, err
 	}
@@ -111,7 +131,7 @@ func (xp xpathImpl) resolveOperator(oper *xpath.Operator, ident string, s *Selec
 			return c <= 0, nil
 		}
 	}
-	panic("unrecognized operator: " + oper.Oper)
+	return false, fmt.Errorf("unrecognized operator: %s", oper.Oper)
 }
 
 func (xp xpathImpl) resolveAbsolutePath(s *Selection) (*Selection, error) {
